@@ -1,6 +1,6 @@
 (* GenEqNum.v — number codecs of encode/buffer.go and decode/buffer.go: translated source = model *)
 From Coq Require Import ZArith Bool List Lia ZifyBool ZifyNat.
-From IVG Require Import SF NumCodec Color GoSem Tables GoSrc NumBase NumProofs SFProofs GenEqBase GenEqFloat.
+From IVG Require Import SF NumCodec Color GoSem Tables GoSrc NumBase NumProofs SFProofs NumSweepD Mul64 GenEqBase GenEqFloat.
 Import ListNotations.
 Local Open Scope Z_scope.
 Ltac Zify.zify_post_hook ::= Z.div_mod_to_equations.
@@ -204,4 +204,75 @@ Proof.
   unfold go_encode_buffer_encodeAngle, enc_angle.
   change (f64_to_f32 (fsub F64 (f32_to_f64 f) (ffloor F64 (f32_to_f64 f)))) with (angle_norm f).
   apply go_encodeZeroToOne_eq. exact Wn.
+Qed.
+
+(* ---------- encodeCoordinate ---------- *)
+
+Lemma ofZ_value i : -8192 <= i <= 8192 -> good_int 0 (of_Z F32 i) i = true.
+Proof.
+  intros H. pose proof sweep_ofZ_ok as S. rewrite forallb_forall in S.
+  specialize (S (i + 8192)). replace (i + 8192 - 8192) with i in S by lia. apply S.
+  apply zrange_in. rewrite Z2Nat.id by lia. lia.
+Qed.
+
+(* the encoder's test  i := int32(g); lo <= i && i < hi && float32(i) == g  decides "g is an integer in [lo,hi)" *)
+Lemma int_test g lo hi : wf_f32 g -> -8192 <= lo -> hi <= 8192 ->
+  let i := f2int 32 F32 g in
+  match in_range lo hi (exact_int F32 g) with
+  | Some j => i = j /\ (((lo <=? i) && (i <? hi)) && feq F32 (of_Z F32 i) g) = true
+  | None => (((lo <=? i) && (i <? hi)) && feq F32 (of_Z F32 i) g) = false
+  end.
+Proof.
+  intros W Hlo Hhi i.
+  destruct (in_range lo hi (exact_int F32 g)) as [j|] eqn:R.
+  - apply in_range_some in R as [E Rj].
+    assert (U : i = j).
+    { unfold i, f2int. rewrite (ftrunc_exact g j W E).
+      change (2 ^ (32 - 1)) with 2147483648.
+      match goal with |- (if ?c then _ else _) = _ => replace c with true by lia end. reflexivity. }
+    split; [exact U|]. rewrite U.
+    pose proof (good_int_spec _ _ _ (ofZ_value j ltac:(lia))) as [Wg [Fg Ig]].
+    rewrite exact_int_is_scaled in E. apply exact_int_scaled_ival in E as [Ff Iv]; [|assumption|lia].
+    assert (Q : feq F32 (of_Z F32 j) g = true) by (apply feq_ival; try assumption; lia).
+    rewrite Q. lia.
+  - destruct (((lo <=? i) && (i <? hi)) && feq F32 (of_Z F32 i) g) eqn:T; [exfalso|reflexivity].
+    apply andb_prop in T as [Rg Q].
+    assert (Hi : lo <= i < hi) by lia.
+    pose proof (good_int_spec _ _ _ (ofZ_value i ltac:(lia))) as [Wg [Fg Ig]].
+    pose proof (feq_finite_r _ _ Fg Q) as Fin.
+    apply (feq_ival _ _ Wg W Fg Fin) in Q.
+    assert (E : exact_int F32 g = Some i).
+    { rewrite exact_int_is_scaled. apply ival_exact_int_scaled; try assumption; [lia|]. rewrite <- Q. exact Ig. }
+    rewrite E in R. rewrite in_range_intro in R by lia. discriminate.
+Qed.
+
+Lemma in_range_mul64 f : wf_f32 f ->
+  in_range (-8192) 8192 (exact_int F32 (fmul F32 f c64)) = coord_short2 f.
+Proof.
+  intros W. unfold coord_short2.
+  destruct (in_range (-8192) 8192 (exact_int F32 (fmul F32 f c64))) as [i|] eqn:R1.
+  - apply in_range_some in R1 as [E Ri]. apply (exact_mul64 f i W ltac:(lia)) in E.
+    rewrite E. symmetry. apply in_range_intro. exact Ri.
+  - destruct (in_range (-8192) 8192 (exact_int_scaled F32 6 f)) as [i|] eqn:R2; [|reflexivity].
+    apply in_range_some in R2 as [E Ri]. apply (exact_mul64 f i W ltac:(lia)) in E.
+    rewrite E in R1. rewrite in_range_intro in R1 by exact Ri. discriminate.
+Qed.
+
+Theorem go_encodeCoordinate_eq b f : wf_f32 f ->
+  go_encode_buffer_encodeCoordinate b f = (b ++ enc_coordinate f, Z.of_nat (length (enc_coordinate f))).
+Proof.
+  intros W. unfold go_encode_buffer_encodeCoordinate, enc_coordinate, coord_short1.
+  rewrite <- c64_bits.
+  pose proof (int_test f (-64) 64 W ltac:(lia) ltac:(lia)) as T1. cbv zeta in T1.
+  destruct (in_range (-64) 64 (exact_int F32 f)) as [i|] eqn:R1.
+  - destruct T1 as [U T1]. rewrite T1. rewrite U.
+    apply in_range_some in R1 as [_ Ri]. unwrap. cbn [length]. f_equal. f_equal. f_equal. lia.
+  - rewrite T1.
+    pose proof (int_test (fmul F32 f c64) (-8192) 8192 (fmul_wf32 _ _ W wf_c64) ltac:(lia) ltac:(lia)) as T2. cbv zeta in T2.
+    rewrite (in_range_mul64 f W) in T2.
+    destruct (coord_short2 f) as [i|] eqn:R2.
+    + destruct T2 as [U T2]. rewrite T2. rewrite U.
+      unfold coord_short2 in R2. apply in_range_some in R2 as [_ Ri]. unfold le16. unwrap.
+      lor_add. cbn [length]. f_equal. f_equal. repeat (f_equal; try lia).
+    + rewrite T2. rewrite go_encode4ByteReal_eq by exact W. reflexivity.
 Qed.
